@@ -422,7 +422,7 @@ func (t *FnTrans) ghostAssign(g *Clause, env *Env, lhsE *Expr, val string, havoc
 			t.fail("%s:%d: unknown ghost field %s", g.File, g.Line, lhsE.Name)
 		}
 		gsort := t.ghostSort(ts.GhostField[lhsE.Name], n)
-		c := t.comp("H."+originName(n)+".$"+lhsE.Name, "(Array Int "+gsort+")")
+		c := t.comp(ghostCompName(originName(n), lhsE.Name, ts.GhostField[lhsE.Name], gsort), "(Array Int "+gsort+")")
 		if havoc {
 			val = t.newConst(c+"@choose", gsort)
 		}
@@ -1238,7 +1238,7 @@ func (t *FnTrans) staticMod(x *Expr, ptypes map[string]types.Type, pkg *types.Pa
 		}
 		if ts := t.eng.specs.Types[typeName(ST)]; ts != nil {
 			if gs, ok := ts.GhostField[x.Name]; ok {
-				t.w(l, "H."+originName(ST)+".$"+x.Name, "(Array Int "+t.ghostSort(gs, ST)+")")
+				t.w(l, ghostCompName(originName(ST), x.Name, gs, t.ghostSort(gs, ST)), "(Array Int "+t.ghostSort(gs, ST)+")")
 				return true
 			}
 		}
